@@ -1,5 +1,5 @@
 (* C14 — the fast selection-choice encoder is sound and covers the design space. *)
-From DSG Require Import Base Dsg Sel SelP DesVar Problem ProblemP.
+From DSG Require Import Base Dsg Sel SelP DesVar Problem ProblemP Neighborhood NeighborhoodP.
 
 (* soundness: whatever passes decode_witness is an architecture the graph semantics admit *)
 Theorem C14_sound : forall g E k x x' act inst dvv s,
@@ -21,3 +21,33 @@ Print Assumptions C14_reference_complete.
 Theorem C14_greedy_reaches_all : forall g l, enum_adm g = Some l -> forall s, Adm g s -> exists s', Run g s' /\ same s' s.
 Proof. exact adm_has_run. Qed.
 Print Assumptions C14_greedy_reaches_all.
+
+(* the order in which the fast encoder tries vectors (_iter_neighborhood): exactly the space left by the fixed variables,
+   every vector once, the requested vector first *)
+Theorem C14_neighborhood_exact : forall vs, requested_ok vs -> forall x, In x (neighborhood vs) <-> in_space vs x.
+Proof. exact neighborhood_exact. Qed.
+Print Assumptions C14_neighborhood_exact.
+
+Theorem C14_neighborhood_once : forall vs, requested_ok vs -> NoDup (neighborhood vs).
+Proof. exact neighborhood_NoDup. Qed.
+Print Assumptions C14_neighborhood_once.
+
+(* so the search returns a feasible vector whenever that space contains one (coverage), the result respects the fixed
+   variables, a feasible request is returned unchanged, and a failed search means the space holds no feasible vector *)
+Theorem C14_search_total : forall feas vs, requested_ok vs -> (exists x, in_space vs x /\ feas x = true) ->
+  exists y, first_feasible feas vs = Some y /\ feas y = true /\ in_space vs y.
+Proof. exact first_feasible_total. Qed.
+Print Assumptions C14_search_total.
+
+Theorem C14_search_keeps_feasible_request : forall feas vs, feas (map (fun v : nvar => snd (fst v)) vs) = true ->
+  first_feasible feas vs = Some (map (fun v : nvar => snd (fst v)) vs).
+Proof. exact first_feasible_identity. Qed.
+Print Assumptions C14_search_keeps_feasible_request.
+
+Theorem C14_search_failure_means_empty : forall feas vs, requested_ok vs -> first_feasible feas vs = None ->
+  forall x, in_space vs x -> feas x = false.
+Proof. exact first_feasible_none. Qed.
+Print Assumptions C14_search_failure_means_empty.
+
+Example C14_ex_neighborhood : neighborhood [(3%nat, 1%Z, false); (2%nat, 0%Z, true)] = [[1;0];[2;0];[0;0]]%Z.
+Proof. vm_compute. reflexivity. Qed.
